@@ -53,6 +53,7 @@ def run_rows(S: Any, sqlenv: Any, case: dict) -> list[str]:
     """unmonitored execution on a fresh real SQLite store; after every op the row is read from the table"""
     kind = case["kind"]
     real = S.Real(sqlenv.store(kind), kind)
+    real.env = sqlenv
     outs = []
     for op in case["ops"]:
         if op[0] == "raw":
@@ -67,9 +68,48 @@ def run_plain(S: Any, sqlenv: Any, kind: str, ops: list) -> tuple[list[str], lis
     """unmonitored execution on fresh real stores: results of both, and what both hold at the end"""
     mem = S.Real(S.make_mem(kind), kind)
     sql = S.Real(sqlenv.store(kind), kind)
+    sql.env = sqlenv
     a = [mem.do(op) for op in ops]
     b = [sql.do(op) for op in ops]
     return a, b, mem.peek(), sql.peek()
+
+
+async def persist_real(real: Any, how: str) -> str:
+    """`persist` op of `ss_common.Real`: replace `real.store` by a store restored from its serialized payload, through
+    JSON as the server persists it.  The caller's snapshot (`real.held`) stays what it is."""
+    from workflows.context.serializers import JsonSerializer
+    from workflows.context.state_store import InMemoryStateStore, create_in_memory_payload
+
+    from . import ss_common as S
+
+    ser = JsonSerializer()
+    s = real.store
+    if how not in ("reopen", "copy", "migrate"):
+        return "bad-op"
+    if isinstance(s, InMemoryStateStore):
+        payload = json.loads(json.dumps(s.to_dict(ser)))
+        real.store = InMemoryStateStore.from_dict(payload, ser)
+        return "none"
+    env = real.env
+    if env is None:
+        return "bad-op"
+    st_type = S.model_of(real.kind)
+    if how == "reopen":
+        # SqliteStateStore.from_dict of the {"store_type": "sqlite", "run_id"} reference: a new object on the same row
+        payload = json.loads(json.dumps(s.to_dict(ser)))
+        real.store = type(s).from_dict(payload, ser, db_path=env.path, state_type=st_type)
+        return "none"
+    env.n += 1
+    new_run = f"run-{env.n}"
+    if how == "copy":
+        # the server's resume path: create_state_store(new run, serialized_state=<sqlite reference>) -> SQL copy of the row
+        payload = json.loads(json.dumps(s.to_dict(ser)))
+    else:
+        # migrate: an in-memory payload of the current state (what InMemoryStateStore.to_dict gives) seeded into a new run
+        cur = await s.get_state()
+        payload = json.loads(json.dumps(create_in_memory_payload(cur, ser).model_dump()))
+    real.store = env.ws.create_state_store(new_run, state_type=st_type, serialized_state=payload, serializer=ser)
+    return "none"
 
 
 def _state_line(S: Any, st: Any) -> str:
@@ -94,6 +134,8 @@ def erase_checks(S: Any, sqlenv: Any, case: dict, r: Any, out: Any) -> list[Viol
                          "top-level mutations of get_state() snapshots (no write-back in between)"))
     if any(op[0] == "get" for op in ops):
         variants.append(("read_observable", "get", len(ops), "get() calls"))
+    if any(op[0] == "persist" for op in ops):
+        variants.append(("persist_restore_observable", "persist", len(ops), "persistence round trips (to_dict / from_dict)"))
     for rule, erased, upto, descr in variants:
         keep = [i for i in range(upto) if ops[i][0] != erased]
         fops = [ops[i] for i in keep]
@@ -266,3 +308,24 @@ def gen_case_hist(S: Any, rng: Any, n_ops: int) -> dict:
                     op = ["getstate"]
                 put(op)
     return {"kind": kind, "ops": ops}
+
+
+def with_persists(rng: Any, case: dict) -> dict:
+    """sprinkle persistence round trips over a case: before the first op (a store that holds nothing / has no row), right
+    after get_state (the snapshot must survive the store object), after raising bodies, and at random places"""
+    ops: list = []
+    hows = ["reopen", "copy", "migrate"]
+    if rng.random() < 0.5:
+        ops.append(["persist", rng.choice(hows)])
+    for op in case["ops"]:
+        ops.append(op)
+        p = 0.12
+        if op[0] in ("getstate", "mutsnap"):
+            p = 0.35
+        elif op[0] in ("edit", "clear", "setstate"):
+            p = 0.25
+        if rng.random() < p:
+            ops.append(["persist", rng.choice(hows)])
+            if rng.random() < 0.2:
+                ops.append(["persist", rng.choice(hows)])
+    return {"kind": case["kind"], "ops": ops}
